@@ -133,7 +133,13 @@ func (v *DataModelView) DrawRelation(
 	for _, attrName := range attrNames {
 		attrType := entity.AttrDefs[attrName]
 		var s string
-		if typeRef := attrType.GetTypeRef(); typeRef != nil {
+		if typeRef := attrType.GetTypeRef(); typeRef != nil && len(typeRef.GetRef().GetPath()) < 2 {
+			// not a <table>.<column> reference (e.g. the name of a type that is not defined, which
+			// the parser keeps as an application name plus a one-element path): no relation to draw
+			ref := typeRef.GetRef()
+			s = fmt.Sprintf("+ %s : **%s**\n", attrName,
+				strings.Join(append(append([]string{}, ref.GetAppname().GetPart()...), ref.GetPath()...), "."))
+		} else if typeRef != nil {
 			targetApp := entityApp
 			if typeRef.GetRef().GetAppname().GetPart() != nil {
 				targetApp = syslutil.JoinAppName(typeRef.GetRef().GetAppname())
